@@ -352,7 +352,7 @@ TRANSPARENT = [
     (r"(std|core)::result::Result::(as_ref|as_mut|unwrap|expect|ok)", [0]),
     (r"(std|alloc)::boxed::Box::new", [0]),
     (r"(std|alloc)::vec::Vec::(as_slice|as_mut_slice)", [0]),
-    (r"(std|alloc)::slice::.*::to_vec", [0]),
+    (r"(std|alloc)::slice::(.*::)?to_vec", [0]),
     (r"(std|core)::slice::.*::(iter|iter_mut|as_ref)", [0]),
     (r"(std|core)::iter::IntoIterator::into_iter", [0]),
     (r"(std|core)::pin::Pin::(new|new_unchecked|as_mut|get_mut)", [0]),
@@ -1050,12 +1050,17 @@ def writes_into(body, prov, local):
     al = aliases_of(body, local)
     out = []
     for bi, t in body.calls():
-        if not t.args or t.args[0].place is None or t.args[0].place.local not in al:
+        if not t.args:
             continue
         n = short(t.callee() or "")
         m = BUFFER_WRITERS.search(n)
-        if m:
-            out.append((bi, m.group(1), [prov.operand(a) for a in t.args[1:]], t))
+        if not m:
+            continue
+        # `cipher.apply_keystream(&mut buf)`: the buffer is the second argument
+        ti = 1 if m.group(1) == "apply_keystream" else 0
+        if len(t.args) <= ti or t.args[ti].place is None or t.args[ti].place.local not in al:
+            continue
+        out.append((bi, m.group(1), [prov.operand(a) for i, a in enumerate(t.args) if i != ti], t))
     return out
 
 
@@ -1209,3 +1214,28 @@ def reachable_flags(body, prov, start, removed_edges=(), removed_blocks=()):
         return set()
     states, exits, parent = propagate(body, fe.initial(), transfer, start=start)
     return set(states)
+
+
+def canon(e, depth=0):
+    """the expression with every transparent call (clone, deref, to_vec, Box::new, into, ..) removed at every level;
+    alternatives are kept as a sorted phi"""
+    if depth > 40:
+        return ("unknown", "depth")
+    outs = []
+    for r in roots(e):
+        k = r[0]
+        if k == "call":
+            outs.append(("call", r[1], tuple(canon(a, depth + 1) for a in r[2])) + tuple(r[3:]))
+        elif k in ("field", "as", "index"):
+            outs.append((k, canon(r[1], depth + 1)) + tuple(r[2:]))
+        elif k == "agg":
+            outs.append(("agg", r[1], tuple((n, canon(v, depth + 1)) for n, v in r[2])) + tuple(r[3:]))
+        else:
+            outs.append(r)
+    uniq = []
+    for o in outs:
+        if o not in uniq:
+            uniq.append(o)
+    if len(uniq) == 1:
+        return uniq[0]
+    return ("phi", tuple(sorted(uniq, key=lambda x: fmt(x))))
